@@ -11,7 +11,7 @@ for id in $ids; do
   [ -f $d/patch.diff ] || continue
   [ -f $d/tests.txt ] && continue
   (cd $WT && git checkout -q -- . && git apply $OLDPWD/$d/patch.diff) || { echo "patch failed to apply on HEAD" > $d/tests.txt; continue; }
-  (cd $WT && PYTHONPATH=$WT timeout 3000 /venv/bin/python -m pytest -q -p no:cacheprovider --timeout=900 \
+  (cd $WT && PYTHONPATH=$WT timeout 3000 /venv/bin/python -m pytest -q -p no:cacheprovider --timeout=900 -n ${CONFIRM_N:-6} \
       cubed/tests/test_core.py cubed/tests/test_array_api.py cubed/tests/test_optimization.py cubed/tests/runtime \
       cubed/tests/test_executor_features.py cubed/tests/test_rechunk.py cubed/tests/test_store.py cubed/tests/primitive cubed/tests/storage \
       cubed/tests/test_linalg.py cubed/tests/test_indexing.py cubed/tests/test_utils.py cubed/tests/test_random.py cubed/tests/test_gufunc.py \
